@@ -25,8 +25,7 @@ contract('saml2_tophat.ident:code', types={'item': NID}, returns='Str', pure=Tru
          defines=['result == code_of(item)'],      # names the key for the cache contracts (C19)
          modifies=[], clauses_from={'C18': ['C18-encoding']})
 
-contract('saml2_tophat.ident:decode', trusted=True, params=['txt'], returns=NID, ensures=['fresh(result)'],
-         note='ASSUMED: inverse of code on the encoded form (bounded stand-in ident_history checks decode(code(n)) == n natively)')
+# (ident.decode: assumed contract in c_cache.py -- fresh NameID; the bounded stand-in ident_history checks decode(code(n)) == n natively)
 
 contract(IDB + '.find_local_id', types={'name_id': NID}, returns='Opt(Str)', pure=True,
          ensures=[('C18-lookup', 'implies(name_id.text is not None and has_key(self.db, name_id.text), result == self.db[name_id.text])'),
